@@ -160,6 +160,20 @@ def generate(seed, tier, index):
         files[pb + ".json"] = "trj2"
         ops.append(["fs_load", "ld%d" % len(ops), "trajectory", pa + ".json", {"abs": rf.chance(0.3)}])
         faults.add("sibling_trajectory_files")
+    if index % 6 == 2:
+        # a hand-written network file without any 'units' key, read through the plain entry point; the caller then edits the
+        # units system of the object it got, in place; reading the file again gives what the file says
+        plain = C.rerender_plain(entry)
+        netd = _get(plain["system"], ["network", "rdnetwork"])
+        ops += [["fs_build", "netP", "network", {"d": netd, "pus": dict(si.DEFAULT_US)}],
+                ["fs_raw", "netP", "a/rawnet.json", netd],
+                ["fs_chdir", rf.choice(DIRS)],
+                ["fs_load", "ldraw1", "network", "a/rawnet.json", {"abs": rf.chance(0.5)}],
+                ["fs_touch_units", "ldraw1"],
+                ["fs_load", "ldraw2", "network", "a/rawnet.json", {"abs": rf.chance(0.5)}]]
+        objects["netP"] = "network"
+        files["a/rawnet.json"] = "netP"
+        faults.add("reader_result_edited_in_place_then_read_again")
     if giant:
         for sep in (True, False):
             pg = "a/giant_%s" % ("npy" if sep else "inline")
@@ -267,6 +281,8 @@ def check(case, results):
             if d:
                 viol.append(dict(ctx, oracle="C12.save-does-not-modify", op=oi,
                                  detail="object '%s' changed after being saved/serialised: %s" % (op[1], "; ".join(d))))
+        elif name == "fs_raw":
+            files[op[2]] = op[1]
         elif name in ("fs_save", "fs_split"):
             pth = op[2]
             if name == "fs_save" and case["meta"]["objects"].get(op[1]) == "trajectory" and not pth.endswith(".json"):
